@@ -37,6 +37,7 @@ SURROUND = [
     ["import os", "def helper(a, dataset_name=5):\n    return a"],
     ["class Other(object):\n    a: int = 1\n\n    def train(self, a):\n        return a", "Y = [1, 2]"],
     ["def train_all(a):\n    \"\"\"doc\"\"\"\n    return a", "class ConfigClassBase(object):\n    pass"],
+    ["import os", "ConfigClass = os.path.join(ConfigClass.__name__, 'x') if False else ConfigClass\nset_cli_args = set_cli_args\ntrain = train"],
 ]
 
 
@@ -92,7 +93,23 @@ def preserve(truth_i, c, active):
         files[FILES[target]] = text
         fs = FS(files)
         before = ast.parse(text)
-        run_sync(fs, truth, (truth, target), method)
+        kf_cell = False
+        if sur == 4 and not method:
+            if st != "absent" and target in ("function", "argparse_function") and "KF-C15-fnreplace" in active:
+                # the FunctionDef itself is never replaced (known finding), so the replacement lands on the NEXT node that carries
+                # the same location - the assignment `name = name` - instead of leaving everything else alone
+                kf_cell = True
+            if "KF-C11-same-name-assign" in active and (st == "absent" or (target == "class" and pos == 2)):
+                # a module-level assignment to the target's name precedes (or stands in for) the definition and is taken for it
+                kf_cell = True
+        try:
+            run_sync(fs, truth, (truth, target), method)
+        except AssertionError:
+            if kf_cell:
+                return True
+            raise
+        if kf_cell:
+            return True
         after_text = fs.files[FILES[target]]
         try:
             after = ast.parse(after_text)
@@ -142,6 +159,14 @@ def obligations(tier, seed):
                 kf=[("KF-C15-fnreplace", "H.C15.r_fnrepl(%s)" % a), ("KF-C15-nested", "H.C15.r_nested(%s)" % a),
                     ("KF-C15-const", "H.C15.r_const(%s)" % a)],
                 timeout=150 if tier == "quick" else 600, path_timeout=60, funcs=FUNCS))
+    for sid, (skel, k) in C15.DUP_SKELS.items():
+        nn = ["n%d" % i for i in range(k)]
+        N = "H.C15.nm(" + ", ".join(nn) + ")"
+        pre = ["H.C15.names_ok(%s)" % ", ".join(nn)] + (["len(set((%s))) == %d" % (", ".join(nn), k)] if k > 1 else [])
+        obs.append(Ob(name="tree_first_only_%s" % sid, params=[(x, "int") for x in nn], pre=pre,
+                      body="H.C15.rewrite_first_only(%r, %s)" % (sid, N), witness=tuple(range(k)),
+                      bounds="skeleton %s = %r: a later statement of the same scope binds the addressed name again; it must survive the rewrite" % (sid, skel),
+                      timeout=100, funcs=FUNCS))
     for t in range(3):
         obs.append(Ob(
             name="text_truth_%s" % KINDS[t], params=[("c", "int")], pre=["0 <= c < %d" % len(TABLE)],
